@@ -246,7 +246,7 @@ CLAIMS = {
         "ref": "DESIGN.md §4 C16",
     },
     "C17": {
-        "technique": "Lean 4 theorems by mutual structural induction over trees with unlistable directories (walker result = check_file folded over the visible events; error state gains exactly the failing directories; visible events = healed tree's events minus entries with an unlistable proper ancestor; rows depend on events only), content-fault locality over the ~80-arm column evaluator + CLI correspondence run as uid 65534 + fault injection (pipe closed at byte k, strace EPIPE at write k) with a no-crash/status oracle",
+        "technique": "Lean 4 theorems by mutual structural induction over trees with unlistable directories (walker result = check_file folded over the visible events; error state gains exactly the failing directories; visible events = healed tree's events minus entries with an unlistable proper ancestor; rows depend on events only; breadth-first = the same rows and failing directories as depth-first), content-fault locality over the ~80-arm column evaluator + CLI correspondence run as uid 65534 + fault injection (pipe closed at byte k, strace EPIPE at write k) with a no-crash/status oracle",
         "category": "proof",
         "text": ("Theorems for every finite tree with any number and position of unlistable directories and every depth window (depth-first, "
                  "no streamed LIMIT): the searcher's result is check_file folded over the events of the faulty tree and the error counter/"
@@ -254,7 +254,9 @@ CLAIMS = {
                  "listable minus exactly the entries below a failing directory (the failing directory's own row stays), and rows are a "
                  "function of the events only; a tree without faults records nothing; status = 1 iff something was recorded. An entry whose "
                  "content cannot be read differs from the readable entry only in line_count/sha*/is_shebang/has_xattrs (proved over every "
-                 "column of the generated Field table) and those are empty; CONTAINS is empty. PARTIAL: breadth-first and the ordered/"
+                 "column of the generated Field table) and those are empty; CONTAINS is empty. Breadth-first (the default): the queue loop "
+                 "reports the level order of the faulty tree and records exactly its failing directories, and both are permutations of the "
+                 "depth-first run's (bfs_root_exact_with_faults, bfs_faults_same_as_dfs, bfs_rows_same_as_dfs). PARTIAL: the ordered/"
                  "aggregated result paths on faulty trees are decided by correspondence with the model (binary and snapshot both as uid "
                  "65534) and by the filtered-fault-free-run oracle, not by theorems; 'vanished during the search' is not provoked. The "
                  "closed-stdout clause is runtime behaviour (kernel pipe + Rust LineWriter) that the model cannot exhibit: it is decided by "
